@@ -135,6 +135,40 @@ theorem C05_history_opaque (mk : Nat) (writes : List (Entry × Nat)) (rets : Lis
 /-- the master key itself is only ever held under the passphrase-derived lock -/
 theorem C05_lock (passKey nonce mk : Nat) : Opaque (.aead passKey nonce (.atom (toString mk))) = true := rfl
 
+/-! ### the envelope inside an entry (`tink KMSEnvelopeAEAD` over `keywrapper.LocalAEAD`): the keyset is encrypted under
+a fresh data key, the data key is wrapped by the secret lock under the master key, and the two travel together -/
+
+/-- what the envelope AEAD writes: `len ‖ wrapped data key ‖ AEAD(data key, keyset)` -/
+def envelopeTerm (wrappedDek : Term) (dek : Nat) (nonce : Nat) (e : Entry) : Term :=
+  .tuple [.pub "len", wrappedDek, .aead dek nonce (.tuple (e.keys.map fun k => .atom (toString k.secret)))]
+
+/-- the data key as the secret lock hands it back: wrapped under the master key -/
+def wrapped (mk n : Nat) (dek : Nat) : Term := .aead mk n (.atom ("dek:" ++ toString dek))
+
+/-- **the envelope of every entry is opaque**: keyset and data key both lie under an AEAD, for every master key, data key,
+    nonce pair and keyset -/
+theorem C05_envelope_opaque (mk n1 dek n2 : Nat) (e : Entry) :
+    Opaque (envelopeTerm (wrapped mk n1 dek) dek n2 e) = true := by
+  simp [envelopeTerm, wrapped, Opaque, OpaqueL]
+
+theorem C05_envelope_history_opaque (mk : Nat) (writes : List (Nat × Nat × Nat × Entry)) :
+    OpaqueL (writes.map fun w => envelopeTerm (wrapped mk w.1 w.2.1) w.2.1 w.2.2.1 w.2.2.2) = true := by
+  induction writes with
+  | nil => rfl
+  | cons w ws ih => simp [OpaqueL, C05_envelope_opaque, ih]
+
+/-- the two seeded changes of round 4 / 6 as terms: a key manager whose envelope was swapped for the no-op lock writes the
+    data key in clear (C05-6), and a key wrapper that returns a shared scratch buffer can write ANOTHER keyset's unwrapped
+    data key where the wrapped one belongs (C05-7) — neither is opaque, which is what the no-master-key reopen and the
+    data-key scan of the check look for -/
+theorem C05_noop_envelope_not_opaque (dek n2 : Nat) (e : Entry) :
+    Opaque (envelopeTerm (.atom ("dek:" ++ toString dek)) dek n2 e) = false := by
+  simp [envelopeTerm, Opaque, OpaqueL]
+
+theorem C05_foreign_dek_not_opaque (dek dek' n2 : Nat) (e : Entry) :
+    Opaque (envelopeTerm (.atom ("dek:" ++ toString dek')) dek n2 e) = false := by
+  simp [envelopeTerm, Opaque, OpaqueL]
+
 /-- a cleartext keyset write (what the property forbids) is NOT opaque: the predicate can tell -/
 example : Opaque (.tuple [.pub "key", .b64 (.atom "42")]) = false := by decide
 
